@@ -94,6 +94,7 @@ BODY_STMTS = [
     "{% cycle 'grp': 1, 2 %}",
     "{% for i in arr offset: continue %}{{ i }}{% endfor %}",
     "{% for a in arr %}{{ a }}{% endfor %}",
+    "{% for q in (1..2) %}{{ forloop.parentloop.index }}{{ forloop.parentloop.length }}{{ forloop.parentloop.name }}{% endfor %}",
     "{% call m 'z' %}",
     "{% macro m x %}partialM{% endmacro %}",
     "{% render 'inner' %}",
